@@ -981,7 +981,10 @@ class PDFDocument:
 
     def get_dest(self, name: Union[str, bytes]) -> Any:
         try:
-            # PDF-1.2 or later
+            # PDF-1.2 or later: a string is looked up in the /Names /Dests tree.
+            # A name object (str) can only be a key of the /Dests dictionary.
+            if not isinstance(name, bytes):
+                raise KeyError(name)
             obj = self.lookup_name("Dests", name)
         except KeyError:
             # PDF-1.1 or prior
